@@ -203,6 +203,8 @@ static void op_alias(Ctx& c) {
 #ifdef REC_IS_BUNDLE
 // --- Bundle = direct product (C11): static index tables, element<i>() aliasing, element-wise equality
 template <class A> static void put_arr(Out& o, const char* k, const A& a) { o.key(k); std::fputc('[', o.f); for (size_t i = 0; i < a.size(); ++i) std::fprintf(o.f, "%s%d", i ? "," : "", (int)a[i]); std::fputc(']', o.f); }
+// data() of a temporary read-only view: the non-const overload does not compile for Map<const X>, so go through a const reference
+template <class E> static const typename E::Scalar* cdata(const E& e) { return e.data(); }
 template <std::size_t... I> static void layout_impl(Ctx& c, std::index_sequence<I...>) {
   G X = draw_element<G>("generic", "1", "any", "generic", c.r); T t = draw_tangent<G>("generic", "1", "generic", c.r);
   HEAD("layout")
@@ -212,8 +214,18 @@ template <std::size_t... I> static void layout_impl(Ctx& c, std::index_sequence<
   o.num("Dim", G::Dim); o.num("DoF", G::DoF); o.num("Rep", G::RepSize); o.num("Tra", G::Transformation::RowsAtCompileTime); o.num("Alg", T::LieAlg::RowsAtCompileTime);
   std::vector<long> eo = { (long)(X.template element<I>().data() - X.data())... };
   std::vector<long> to = { (long)(t.template element<I>().data() - t.data())... };
+  // the same through views of the bundle: a mutable view, a const view, and a const bundle object
+  Eigen::Map<G> mv(X.data()); const Eigen::Map<const G> cv(X.data()); const G& cX = X;
+  Eigen::Map<T> mtv(t.data()); const Eigen::Map<const T> ctv(t.data());
+  std::vector<long> eo_m = { (long)(mv.template element<I>().data() - X.data())... };
+  std::vector<long> eo_c = { (long)(cdata(cv.template element<I>()) - X.data())... };
+  std::vector<long> eo_k = { (long)(cdata(cX.template element<I>()) - X.data())... };
+  std::vector<long> to_m = { (long)(mtv.template element<I>().data() - t.data())... };
+  std::vector<long> to_c = { (long)(cdata(ctv.template element<I>()) - t.data())... };
   o.key("elem_off"); std::fputc('[', o.f); for (size_t i = 0; i < eo.size(); ++i) std::fprintf(o.f, "%s%ld", i ? "," : "", eo[i]); std::fputc(']', o.f);
   o.key("telem_off"); std::fputc('[', o.f); for (size_t i = 0; i < to.size(); ++i) std::fprintf(o.f, "%s%ld", i ? "," : "", to[i]); std::fputc(']', o.f);
+  auto putl = [&](const char* k, const std::vector<long>& v) { o.key(k); std::fputc('[', o.f); for (size_t i = 0; i < v.size(); ++i) std::fprintf(o.f, "%s%ld", i ? "," : "", v[i]); std::fputc(']', o.f); };
+  putl("elem_off_view", eo_m); putl("elem_off_cview", eo_c); putl("elem_off_const", eo_k); putl("telem_off_view", to_m); putl("telem_off_cview", to_c);
   o.end();
 }
 static void op_layout(Ctx& c) { layout_impl(c, std::make_index_sequence<G::BundleSize>()); }
@@ -230,6 +242,10 @@ template <std::size_t... I> static void belem_impl(Ctx& c, std::index_sequence<I
   o.vec("exp", t.exp().coeffs());            o.vec("e_exp", cat({ DV(t.template element<I>().exp().coeffs())... }));
   o.vec("rplus", X.rplus(t).coeffs());       o.vec("e_rplus", cat({ DV(X.template element<I>().rplus(t.template element<I>()).coeffs())... }));
   o.vec("lminus", X.lminus(Y).coeffs());     o.vec("e_lminus", cat({ DV(X.template element<I>().lminus(Y.template element<I>()).coeffs())... }));
+  // the same Bundle operations with the operands given as read-only views (element-wise references unchanged)
+  { const Eigen::Map<const G> cX(X.data()), cY(Y.data()); const Eigen::Map<const T> ct(t.data());
+    o.vec("v_compose", X.compose(cY).coeffs()); o.vec("v_between", cX.between(cY).coeffs()); o.vec("v_lminus", cX.lminus(Y).coeffs());
+    o.vec("v_rplus", cX.rplus(ct).coeffs()); o.vec("v_log", cX.log().coeffs()); o.vec("v_inverse", cX.inverse().coeffs()); o.vec("v_exp", ct.exp().coeffs()); }
   o.end();
 }
 static void op_belem(Ctx& c) { belem_impl(c, std::make_index_sequence<G::BundleSize>()); }
